@@ -19,6 +19,7 @@ PKGDIR = {
     "media": "server/media",
     "fs": "server/media/fs",
     "drafty": "server/drafty",
+    "fcm": "server/push/fcm",
 }
 PKGNAME = {"main": "main"}
 TRUSTED_BASE = [
